@@ -371,3 +371,117 @@ func stateConsts(repo string) map[string]string {
 	}
 	return out
 }
+
+// genMemOrder reads how internal/queue/memory.go treats the scan list `s.order`: every assignment to it (function, shape), every
+// loop over it, the thresholds and the keep-condition of compactOrderLocked, and who calls compactOrderLocked how often.
+func genMemOrder(repo, out string) {
+	path := filepath.Join(repo, "internal/queue/memory.go")
+	fset, f := parseFile(path)
+	src, err := os.ReadFile(path)
+	check(err)
+	text := func(n ast.Node) string {
+		return strings.Join(strings.Fields(string(src[fset.Position(n.Pos()).Offset:fset.Position(n.End()).Offset])), " ")
+	}
+	isOrder := func(e ast.Expr) bool {
+		se, ok := e.(*ast.SelectorExpr)
+		return ok && se.Sel.Name == "order"
+	}
+	var writes, scans, calls [][2]string
+	minLen, factor, keeps := "", "", ""
+	for _, d := range f.Decls {
+		fd, ok := d.(*ast.FuncDecl)
+		if !ok || fd.Body == nil {
+			continue
+		}
+		ncalls := 0
+		ast.Inspect(fd.Body, func(n ast.Node) bool {
+			switch x := n.(type) {
+			case *ast.AssignStmt:
+				for i, l := range x.Lhs {
+					if !isOrder(l) || i >= len(x.Rhs) {
+						continue
+					}
+					shape := "other: " + text(x.Rhs[i])
+					switch r := x.Rhs[i].(type) {
+					case *ast.CallExpr:
+						if id, ok := r.Fun.(*ast.Ident); ok && id.Name == "append" && len(r.Args) == 2 && isOrder(r.Args[0]) {
+							if se, ok := r.Args[1].(*ast.SelectorExpr); ok && se.Sel.Name == "ID" {
+								shape = "append-id"
+							}
+						}
+					case *ast.SliceExpr:
+						if isOrder(r.X) && r.Low == nil && r.High != nil && text(r.High) == "0" {
+							shape = "reset"
+						}
+					case *ast.Ident:
+						shape = "set:" + r.Name
+					}
+					writes = append(writes, [2]string{fd.Name.Name, shape})
+				}
+			case *ast.RangeStmt:
+				if isOrder(x.X) {
+					scans = append(scans, [2]string{fd.Name.Name, "range"})
+				}
+			case *ast.CallExpr:
+				if se, ok := x.Fun.(*ast.SelectorExpr); ok && se.Sel.Name == "compactOrderLocked" {
+					ncalls++
+				}
+				// the list handed to anything else (copy, sort, a helper) would be a use this extractor does not understand
+				for _, a := range x.Args {
+					if isOrder(a) {
+						if id, ok := x.Fun.(*ast.Ident); !ok || (id.Name != "len" && id.Name != "append") {
+							writes = append(writes, [2]string{fd.Name.Name, "passed-to: " + text(x.Fun)})
+						}
+					}
+				}
+			}
+			return true
+		})
+		if ncalls > 0 {
+			calls = append(calls, [2]string{fd.Name.Name, strconv.Itoa(ncalls)})
+		}
+		if fd.Name.Name == "compactOrderLocked" {
+			ast.Inspect(fd.Body, func(n ast.Node) bool {
+				switch x := n.(type) {
+				case *ast.IfStmt:
+					be, ok := x.Cond.(*ast.BinaryExpr)
+					if !ok {
+						return true
+					}
+					c := text(be)
+					switch {
+					case be.Op == token.LSS && strings.HasPrefix(c, "len(s.order) < "):
+						minLen = strings.TrimPrefix(c, "len(s.order) < ")
+					case be.Op == token.LEQ && strings.HasPrefix(c, "len(s.order) <= ") && strings.HasSuffix(c, "*len(s.items)"):
+						factor = strings.TrimSuffix(strings.TrimPrefix(c, "len(s.order) <= "), "*len(s.items)")
+					case be.Op == token.NEQ || be.Op == token.EQL:
+						if _, isRange := x.Body.List[0].(*ast.AssignStmt); isRange && strings.Contains(c, "s.items[") {
+							keeps = c
+						}
+					}
+				}
+				return true
+			})
+		}
+	}
+	if _, err := strconv.Atoi(minLen); err != nil {
+		check(fmt.Errorf("compactOrderLocked: no `len(s.order) < N` threshold"))
+	}
+	if _, err := strconv.Atoi(factor); err != nil {
+		check(fmt.Errorf("compactOrderLocked: no `len(s.order) <= K*len(s.items)` threshold"))
+	}
+	pairs := func(xs [][2]string) string {
+		var o []string
+		for _, x := range xs {
+			o = append(o, fmt.Sprintf("(%s, %s)", leanStr(x[0]), leanStr(x[1])))
+		}
+		return "[" + strings.Join(o, ", ") + "]"
+	}
+	var b strings.Builder
+	b.WriteString("/- GENERATED by /verif/extract — how internal/queue/memory.go treats its scan list `s.order`. do not edit. -/\nnamespace Hk.Gen.MemOrder\n\n")
+	b.WriteString("/-- (function, shape) of every assignment to `s.order` and every use of it other than len / append / range -/\ndef orderWrites : List (String × String) := " + pairs(writes) + "\n\n")
+	b.WriteString("/-- functions that loop over `s.order` -/\ndef orderScans : List (String × String) := " + pairs(scans) + "\n\n")
+	b.WriteString("/-- (function, number of calls of compactOrderLocked) -/\ndef compactCalls : List (String × String) := " + pairs(calls) + "\n\n")
+	b.WriteString("def compactMin : Nat := " + minLen + "\ndef compactFactor : Nat := " + factor + "\ndef compactKeeps : String := " + leanStr(keeps) + "\n\nend Hk.Gen.MemOrder\n")
+	must(os.WriteFile(filepath.Join(out, "MemOrderFacts.lean"), []byte(b.String()), 0o644))
+}
